@@ -448,3 +448,41 @@ func unionLen() int {
 	}
 	return 1
 }
+
+// S6: --tag is "any of", --exclude-tag is "none of", for every combination of up to three tags on
+// the selector's two lists and on the target
+func VerifC12_S_tag_lists() {
+	config.Global.AllPlatforms = false
+	all := []string{"t1", "t2", "t3"}
+	subset := func(name string) []string {
+		var out []string
+		for _, t := range all {
+			if flag(name + "_" + t) {
+				out = append(out, t)
+			}
+		}
+		return out
+	}
+	has := func(set []string, t string) bool {
+		for _, x := range set {
+			if x == t {
+				return true
+			}
+		}
+		return false
+	}
+	want, exclude, own := subset("select"), subset("exclude"), subset("target")
+	anyWanted, anyExcluded := len(want) == 0, false
+	for _, t := range own {
+		if has(want, t) {
+			anyWanted = true
+		}
+		if has(exclude, t) {
+			anyExcluded = true
+		}
+	}
+	sel := New(nil, want, exclude, AllTargets)
+	got := sel.Match(&model.Target{Label: label.TL("p", "x"), Tags: own})
+	sym.Assert(got == (anyWanted && !anyExcluded), "C12.S6.tags-any-of-and-exclude-none-of")
+	sym.Reach("C12.S.tag-lists")
+}
